@@ -14,6 +14,7 @@ factorisations themselves are modelled, not verified.
 -/
 import Xrfmv.Lemmas.FitLoop
 import Xrfmv.Lemmas.KernelPsd
+import Xrfmv.Lemmas.Ridge
 import Mathlib.LinearAlgebra.Matrix.PosDef
 import Mathlib.Algebra.Order.Star.Real
 
@@ -141,5 +142,34 @@ theorem ridge_exists_unique_sumPower {q L c₀ : ℝ} (hq : 0 < q) (hq2 : q ≤ 
 /-- Non-vacuity: the identity Gram matrix (distinct far-apart points) is PSD and `λ = 1e-3 > 0`. -/
 example : (1 : Matrix (Fin 3) (Fin 3) ℝ).PosSemidef ∧ (0 : ℝ) < 1e-3 :=
   ⟨Matrix.PosSemidef.one, by norm_num⟩
+
+/-! ### the solver branches as they are written (regenerated `Gen.Ridge`) -/
+
+/-- **C02 over the regenerated solver code.**  In `RFM.fit_predictor_lstsq` as it is written now (translated into `Gen.Ridge.plan`
+on every run) every solver branch — and the plan has a branch for each of `solve`, `cholesky`, `lu` — factorises the Gram matrix of
+the centers with `reg` added to its diagonal, solves with the factor it has just computed, against the targets, and changes
+nothing else: the system it hands to `torch.linalg` is `(K + reg·I, Y)`. -/
+theorem gen_every_solver_branch_solves_the_ridge_system (K : Matrix n n ℝ) (reg : ℝ) (Y : Matrix n m ℝ) :
+    (∀ s ∈ ["solve", "cholesky", "lu"], s ∈ Gen.Ridge.plan.branches.map (·.name)) ∧
+    ∀ b ∈ Gen.Ridge.plan.branches,
+      Ridge.systemOf Gen.Ridge.plan b K reg Y = some (K + reg • (1 : Matrix n n ℝ), Y) := by
+  refine ⟨by decide, ?_⟩
+  intro b hb
+  simp only [Gen.Ridge.plan, List.mem_cons, List.not_mem_nil, or_false] at hb
+  rcases hb with rfl | rfl | rfl <;>
+    simp [Ridge.systemOf, Ridge.systemMatrix, Ridge.faithful, Gen.Ridge.plan]
+
+/-- … hence, with `torch.linalg` modelled as an exact solve of the system it is given (`hsol`), the coefficients every solver
+returns satisfy `(K + reg·I) α = Y`, and for a positive semi-definite `K` and `reg > 0` all solvers return the same `α`. -/
+theorem gen_solvers_return_the_ridge_solution (K : Matrix n n ℝ) (hK : K.PosSemidef) (reg : ℝ) (hreg : 0 < reg)
+    (Y : Matrix n m ℝ) (sol : String → Matrix n m ℝ)
+    (hsol : ∀ b ∈ Gen.Ridge.plan.branches, ∀ A R, Ridge.systemOf Gen.Ridge.plan b K reg Y = some (A, R) → A * sol b.name = R) :
+    ∀ b ∈ Gen.Ridge.plan.branches, ∀ b' ∈ Gen.Ridge.plan.branches,
+      (K + reg • (1 : Matrix n n ℝ)) * sol b.name = Y ∧ sol b.name = sol b'.name := by
+  intro b hb b' hb'
+  have h := (gen_every_solver_branch_solves_the_ridge_system K reg Y).2
+  have e := hsol b hb _ _ (h b hb)
+  have e' := hsol b' hb' _ _ (h b' hb')
+  exact ⟨e, ridge_unique_matrix K hK reg hreg _ _ Y e e'⟩
 
 end Xrfmv.Props.C02
